@@ -599,6 +599,7 @@ def rule_handler_side(ctx, res):
 
 
 def run(ctx, res):
+    common.rule_no_addr_canonicalisation(ctx, res)
     common.rule_closed_world(ctx, res)
     rule_consts(ctx, res)
     rule_identity(ctx, res)
